@@ -246,6 +246,9 @@ func (p *parser) parseDir() *dir {
 		}
 	}
 	d.ch = unicode.ToUpper(need())
+	if !strings.ContainsRune("ASDBOXRC%|~&T*?()[]{}^P;", d.ch) {
+		bad("directive ~%c is outside the model", d.ch)
+	}
 	p.pos++
 	return d
 }
@@ -985,13 +988,9 @@ func NormEnglish(s string) string {
 	s = strings.ReplaceAll(s, ",", " ")
 	s = strings.ReplaceAll(s, "-", " ")
 	s = strings.ReplaceAll(s, " and ", " ")
-	for _, pre := range []string{"negative ", "Negative ", "NEGATIVE "} {
-		if strings.HasPrefix(s, pre) {
-			s = map[byte]string{'n': "minus ", 'N': "Minus "}[pre[0]] + s[len(pre):]
-			if pre[1] == 'E' {
-				s = "MINUS " + s[len("Minus "):]
-			}
-		}
+	// anywhere in the text: a spelled number may stand in the middle of other output
+	for _, pre := range [][2]string{{"negative ", "minus "}, {"Negative ", "Minus "}, {"NEGATIVE ", "MINUS "}} {
+		s = strings.ReplaceAll(s, pre[0], pre[1])
 	}
 	return s
 }
